@@ -137,7 +137,8 @@ func buildOps() []opDef {
 	for i := range ids {
 		for ci := range contents {
 			i, ci := i, ci
-			put := func(viaBytes bool) func(e *env) (bool, string) {
+			put := func(via int) func(e *env) (bool, string) {
+				viaBytes := via == 1
 				return func(e *env) (bool, string) {
 					var err error
 					pan := catch(func() {
@@ -146,7 +147,11 @@ func buildOps() []opDef {
 						} else {
 							var out cache.OutputID
 							var size int64
-							out, size, err = e.c.Put(ids[i], bytes.NewReader(contents[ci]))
+							if via == 2 {
+								out, size, err = e.c.PutNoVerify(ids[i], bytes.NewReader(contents[ci]))
+							} else {
+								out, size, err = e.c.Put(ids[i], bytes.NewReader(contents[ci]))
+							}
 							if err == nil && (out != outIDs[ci] || size != int64(len(contents[ci]))) {
 								err = fmt.Errorf("Put returned OutputID %x size %d for %q", out, size, contents[ci])
 							}
@@ -164,9 +169,12 @@ func buildOps() []opDef {
 					return true, ""
 				}
 			}
-			ops = append(ops, opDef{name: fmt.Sprintf("Put(%s,%s)", idName[i], contentName[ci]), apply: put(false)})
+			ops = append(ops, opDef{name: fmt.Sprintf("Put(%s,%s)", idName[i], contentName[ci]), apply: put(0)})
 			if ci < 2 {
-				ops = append(ops, opDef{name: fmt.Sprintf("PutBytes(%s,%s)", idName[i], contentName[ci]), apply: put(true)})
+				ops = append(ops, opDef{name: fmt.Sprintf("PutBytes(%s,%s)", idName[i], contentName[ci]), apply: put(1)})
+			}
+			if ci < 2 && i == 0 {
+				ops = append(ops, opDef{name: fmt.Sprintf("PutNoVerify(%s,%s)", idName[i], contentName[ci]), apply: put(2)})
 			}
 		}
 	}
